@@ -1384,7 +1384,7 @@ func specTable(ft *FirewallTable, p firewall.Packet, incoming bool, c *cert.Cach
 //@   ensures[allow]    implies(result2 && !via.IsRelayed, allowed == 1)
 //@   loop 1 invariant[exact]   implies(0 <= j && j < i, vpnAddrs[j] == vpnNetworks[j].Addr() && !liteContains(hm.f.myVpnAddrsTable, vpnAddrs[j]))
 //@   loop 1 invariant[common]  implies(anyVpnAddrsInCommon, exists(func(m int) bool { return 0 <= m && m < i && liteContains(hm.f.myVpnNetworksTable, vpnAddrs[m]) }))
-//@   loop 1 invariant[frame]   len(vpnAddrs) == len(vpnNetworks) && fresh(&vpnAddrs[0])
+//@   loop 1 invariant[frame]   len(vpnAddrs) == len(vpnNetworks) && fresh(&vpnAddrs[0]) && allowed == 0
 //@   loop 1 assigns elems(vpnAddrs)
 
 // =====================================================================
@@ -1455,6 +1455,7 @@ func specHostAt(hm *HostMap, a netip.Addr, m int) *HostInfo {
 //@   ensures[existing]  implies(result1 == ErrExistingHostInfo, result0 == ex && held && older)
 //@   ensures[collision] implies(inMain || inPendingOther, result1 != nil)
 //@   ensures[errors]    result1 == nil || result1 == ErrAlreadySeen || result1 == ErrExistingHostInfo || result1 == ErrLocalIndexCollision
+//@   loop 1 invariant[none] added == 0
 //@   loop 1 invariant forall(func(m int) bool { return implies(0 <= m && m < rangeindex && m < n0, !bytes.Equal(hostinfo.HandshakePacket[handshakePacket], specHostAt(hm.mainHostMap, a0, m).HandshakePacket[handshakePacket])) })
 //@   loop 1 assigns nothing
 
